@@ -123,8 +123,9 @@ pub fn body_size(unit: &'static str, mult: Option<u128>, ndig_max: usize, witnes
         _ => None,
     };
     assert!(got == exp, "C20: a size literal parses to exactly number x unit, otherwise it is rejected");
-    cover!(got.is_some() && got.unwrap() >= 1024, "accepted literal with a unit");
-    cover!(got.is_none(), "rejected literal");
+    let w1 = if mult.is_some() { got.is_some() && (got.unwrap() >= 10 || unit.is_empty()) } else { val.is_some() };
+    cover!(w1, "an accepted literal (known unit) / a number with a junk suffix");
+    cover!(got.is_none(), "a rejected literal");
     if witness {
         assert!(false, "WITNESS");
     }
@@ -217,8 +218,9 @@ pub fn body_interval(unit: &'static str, iu: IU, ndig_max: usize, witness: bool)
         _ => None,
     };
     assert!(got == exp, "C20: an interval literal parses to exactly number x named unit, otherwise it is rejected");
-    cover!(got.is_some(), "accepted interval");
-    cover!(got.is_none(), "rejected interval");
+    let w1 = if iu != IU::Junk { got.is_some() } else { val.is_some() };
+    cover!(w1, "an accepted interval (known unit) / a number with a junk suffix");
+    cover!(got.is_none(), "a rejected interval");
     if witness {
         assert!(false, "WITNESS");
     }
